@@ -2,6 +2,8 @@
    This file holds nothing but the property theorems (closed by `exact`) and Print Assumptions.
    Model: Sched/Model.v, Agent/Run.v.  Proofs: Sched/Proofs.v, Sched/ProofsFinal.v, Agent/RunProofs.v.
    Tie to the code: tools/props/C03.py.
+   An ATTEMPT is a Run of the step's command or a failed creation of that command (label WCreateFail: the attempt ends in
+   error without a command having been started; att and outs count it as a failed attempt).
    Premise: norepeat c (no repeatPolicy step: a repeating step has no last attempt until a stop request - stopped runs
    are C04/C05 - and with continueOn.failure it is labelled failed while it keeps executing, see
    C15_repeating_step_refuted).  Since fix f9e55a3 no premise about the done channel is needed.
